@@ -34,9 +34,27 @@ func c18Comment(kind, max int) []byte {
 	return cat(bs(" /*"), body, bs("*/"))
 }
 
+// c18Lit: enum items also include negative integers and numerals with a fraction (possibly all zeros).
+func c18Lit(k gen.Kind) []byte {
+	switch k {
+	case gen.KInt:
+		d := v.Byte()
+		v.Assume('1' <= d && d <= '9')
+		if v.Choose(0, 1) == 1 {
+			return []byte{'-', d}
+		}
+		return []byte{d}
+	case gen.KFloat:
+		d, f := v.Byte(), v.Byte()
+		v.Assume('0' <= d && d <= '9' && '0' <= f && f <= '9')
+		return []byte{d, '.', f}
+	}
+	return smallLit(k)
+}
+
 // ZZC18Enum: {enum: @E} + rule behaves like the inline list; Values/GetAST in source order.
 func ZZC18Enum() {
-	kinds := []gen.Kind{gen.KInt, gen.KStr, gen.KBool, gen.KNull}
+	kinds := []gen.Kind{gen.KInt, gen.KStr, gen.KBool, gen.KNull, gen.KFloat}
 	n := v.Choose(1, v.Param("values", 2))
 	var lits [][]byte
 	var decs [][]byte // decoded value for strings, literal text otherwise
@@ -49,7 +67,7 @@ func ZZC18Enum() {
 			lits = append(lits, l)
 			decs = append(decs, d)
 		} else {
-			l := smallLit(k)
+			l := c18Lit(k)
 			lits = append(lits, l)
 			if k == gen.KStr {
 				decs = append(decs, l[1:len(l)-1])
